@@ -1,5 +1,51 @@
 # C03 -- rearranging views (reshape / transpose / ... ) equal NumPy, at the level of the index functions
-META = dict(level='proof', level_text='wip', level_note='wip', trusted_base=[], assumptions=[], not_covered=[])
+META = dict(
+    level='proof',
+    level_text=('Index-function level of the rearranging views, instantiated for utl::static_vector<size_t,8> shapes/indices and '
+                'utl::static_vector<int,8> axes / target shapes (rank 0..8 symbolic, all 64-bit extents, all int axes): every '
+                'symbolic-trip loop of normalize_axis, shape_transpose (None/axes), reverse, scatter, gather, product, '
+                'count_negative_reshape, shape_reshape, shape_expand_dims, shape_squeeze, shape_atleast_nd (nd=1,2,3), shape_flatten, '
+                'swapaxes_to_transpose, moveaxis_to_transpose (scalar axes) and index::count is closed by a loop contract and every '
+                'NumPy postcondition (iff-validity + resulting shape / source index at every position via a ghost index) is '
+                'discharged by CBMC --dfcc for all inputs; permutation laws (gather o scatter = id, transpose by p then p^-1 restores '
+                'index and shape, reverse twice = id) are discharged on the compositions of the real functions. Products / quotients '
+                '(reshape, flatten) are uninterpreted with sound axioms (mode uf); division-by-zero, bounds, overflow and conversion '
+                'checks of shape_reshape are also discharged bit-precisely with product/count_negative_reshape replaced by their '
+                '(separately discharged) contracts. flip_slices is proved for a compile-time rank 3 (loop over the axes unwound: '
+                'constant trip count). Five input regions are excluded as recorded genuine defects (known_findings.json).'),
+    level_note=('Trusted: clang AST, cxx2c rendering, CBMC/dfcc; UF axioms for * / % plus three listed theorem instances; the glue '
+                'between the index functions and the views (view::reshape/transpose/... call exactly these functions; '
+                'reshape_t::indices = compute_indices(compute_offset(.)) is under contract in C01). Signed->unsigned conversions '
+                'of negative axes (well defined, modular) are not reported by the conversion check in at(), normalize_axis, '
+                'count_negative_reshape and flip_slices; their effect is covered by the postconditions.'),
+    trusted_base=[
+        'clang 14 front end (AST of the instantiated templates)', 'engine/cxx2c.py (C++ AST -> C rendering)',
+        'cbmc 6.11.0 / goto-instrument --dfcc (contract + loop-contract instrumentation, SAT back end)',
+        'models/prelude.h C models of std::optional / std::tuple / std::array',
+        'C++ references are valid and parameters do not alias outputs (harness passes distinct objects)',
+        'view glue: view::transpose_t / reshape_t / squeeze / expand_dims / atleast_nd / moveaxis / swapaxes / flip call the index functions under contract (read, not verified)',
+    ],
+    assumptions=[
+        'UF mode (shape_reshape.uf, count_negative_reshape*.uf, product.contract.uf, shape_flatten.uf): unsigned long * / % are uninterpreted functions constrained by the axioms of models/prelude.h (each a theorem of machine arithmetic)',
+        'two extra theorem instances on the ghost-bound terms in spec/c03.h: b != 0 ==> b % b == 0; a >= b > 0 ==> a / b >= 1',
+        'shape_reshape.safe.bp (bit-precise) uses the contracts of index::product and count_negative_reshape (replace=), which are discharged in UF mode for every multiplication satisfying the axioms, hence for the machine one; its ghost product traces are kept uninterpreted',
+        'ghost traces (PS, PD, CN, NB, VT, SQ, FX, QRS, g2, g3) are functional definitions assumed in the precondition (always satisfiable; recomputed natively in replays)',
+        'reshape: source element count >= 1 (extents >= 1, as in the property quantifier) and <= INT_MAX for the functional contract (the inferred extent is stored in the target shape\'s element type int); target rank >= 1; products are the size_t (wrapping) products: equal to NumPy\'s when nothing exceeds 2^64',
+        'squeeze: extents >= 1 (property quantifier); for a zero extent shape_squeeze counts with `> 1` but copies with `!= 1` ((0,3) -> length 1): outside the quantifier, not claimed',
+        'transpose family / laws: axes are a valid (possibly negative) permutation of the rank (validation of explicit axes is not done by shape_transpose / view::transpose: C15)',
+        'configuration: -DNDEBUG, STL enabled, kind utl::static_vector<.,8> (rank 0..8 symbolic); normalize_axis: ndim <= INT_MAX',
+        'spec loops (spec/c03.h) are bounded by CAP=8 and unwound with unwinding assertions (unwind=10); constant-trip code loops of hybrid_ndarray<size_t,8,1> helpers, of the 1-element axis arrays inside moveaxis_to_transpose and of flip_slices(rank 3) are unwound before dfcc (unwind_loops)',
+    ],
+    not_covered=[
+        'moveaxis with axis lists (argsort + repeated insert); only scalar source/destination is under contract',
+        'flip: flip_slices only for compile-time rank 3 (run-time rank yields std::vector, a clipped rank does not compile: flip.hpp:74); the element map of the resulting (None,None,-1) slices is C05\'s compute_index contract; flip-twice law shown for index::reverse only',
+        'shape_atleast_nd with run-time nd (std::vector result); numpy.atleast_3d (appends) differs from nmtools atleast_nd(3) (prepends): checked against the prepend rule',
+        'remove_single_dims (not used by view::squeeze), swapaxes with a run-time (unbounded) rank',
+        'reshape: target shapes with a 0 extent for an empty source (valid in NumPy), rank-0 target (), element counts above INT_MAX with int target shapes, product(result) == product(source) as a separate clause',
+        'explicit-axes validation of shape_transpose (out-of-range / duplicate axes are undefined behaviour, no Nothing): C15',
+        'compile-time-constant / tuple / std::vector index containers; the view classes themselves',
+    ],
+)
 # constant-trip (rank-1) helper loops of hybrid_ndarray<size_t,8,1>
 HYB = {'hybrid_ndarray.*resize': 3, 'detail_init_': 3}
 # flip_slices for a compile-time rank 3: `for i < dim` has the constant trip count 3
